@@ -35,13 +35,13 @@ pub const LAYOUTS: &[(&str, &str)] = &[
     ("292", "20 21 11S 79"),
     ("296", "20 21 76 77A? < 11R 11S >? 79?"),
     ("299", "20 21? 79"),
-    ("900", "20 21 25 13D? 32A 52[AD]? 72?"),
-    ("910", "20 21 25 13D? 32A 50[AFK]? 52[AD]? 56[AD]? 72?"),
+    ("900", "20 21 25[-P] 13D? 32A 52[AD]? 72?"),
+    ("910", "20 21 25[-P] 13D? 32A 50[AFK]? 52[AD]? 56[AD]? 72?"),
     ("920", "20 ( 12 25 34F? 34F? ){1,100}"),
     ("935", "20 ( < 23 25 > 30 37H+ ){1,10} 72?"),
     ("940", "20 21? 25 28C 60F ( 61 86? ){1,} 62F 64? 65*"),
-    ("941", "20 21? 25 28 13D? 60F? 90D? 90C? 62F 64? 65* 86?"),
-    ("942", "20 21? 25 28C 34F 34F? 13D ( 61 86? )* 90D? 90C? 86?"),
+    ("941", "20 21? 25[-P] 28 13D? 60F? 90D? 90C? 62F 64? 65* 86?"),
+    ("942", "20 21? 25[-P] 28C 34F 34F? 13D ( 61 86? )* 90D? 90C? 86?"),
     ("950", "20 25 28C 60[FM] 61* 62[FM] 64?"),
 ];
 
